@@ -8,6 +8,5 @@ Open Scope Z_scope.
 
 Lemma src_add_magic_prefix_eq : forall m, src_add_magic_prefix m = of_option (add_magic_prefix m).
 Proof.
-  intros m. unfold src_add_magic_prefix, add_magic_prefix. cbv zeta. rewrite src_encode_varint_eq.
-  destruct (encode_varint (Z.of_nat (length m))); cbn [of_option option_map]; rewrite <- ?app_assoc; reflexivity.
+  intros m. unfold src_add_magic_prefix, add_magic_prefix. tie_pipe.
 Qed.
